@@ -135,6 +135,7 @@ partial def loop (h : IO.FS.Stream) (d : Drv) (pendingOp : Option (List String))
          | some u => loop h { d with disk := { umask := u } } none
          | none => loop h d none)
       | "fsmut" :: _, _ => loop h d none
+      | "misc" :: _, _ => loop h d none          -- C17: the entry points outside the model (CKR_FUNCTION_NOT_SUPPORTED and pure queries); only crashes count
       | "decrelay" :: _, _ => loop h d none
       | "verrelay" :: _, _ => loop h d none
       | ["kcv", _, _], [rv, _, _, kt, val, cv] =>
